@@ -10,7 +10,7 @@
 (*                                                                         *)
 (* edit record [t, pos, a, b]                                              *)
 (*   "cmt"  comment: pos statement index (Len+1 = after the last),         *)
-(*          a place (1 line before, 2 trailing, 3 between continuation     *)
+(*          a place (1 line before, 2 trailing, 3 between continuation (5: trailing on a continued line after a literal),     *)
 (*          lines of pos), b text class                                    *)
 (*   "cpp"  preprocessor line(s) before statement pos; a directive form    *)
 (*   "garb" statement pos replaced by garbage a, laid out over 1+b lines   *)
@@ -60,18 +60,19 @@ Anchor == IF NeedStruct /\ HasStruct /\ OpenerIdxs(StructPos) # {}
           THEN {CHOOSE m \in OpenerIdxs(StructPos) : \A y \in OpenerIdxs(StructPos) : y <= m} ELSE {}
 AddCmt ==
   /\ "cmt" \in PKinds /\ (NeedStruct => HasStruct)
-  /\ \E pos \in Ch(IF NeedStruct THEN Anchor ELSE 1..(N + 1)), place \in {1, 2, 3, 4}, c \in Ch(1..NCmtCls) :
+  /\ \E pos \in Ch(IF NeedStruct THEN Anchor ELSE 1..(N + 1)), place \in {1, 2, 3, 4, 5}, c \in Ch(1..NCmtCls) :
        /\ (NeedStruct => place = 1)
        \* place 4: the comment line lies between the two halves of a character literal that is continued
-       /\ (place = 4 => pos <= N /\ ((out[pos].k = "s" /\ out[pos].v \in StrSplitS) \/ (out[pos].k = "decl" /\ out[pos].v \in StrSplitDecl)))
+       \* place 5: a trailing comment on the first line of a statement that is continued directly after its first character literal
+       /\ (place \in {4, 5} => pos <= N /\ ((out[pos].k = "s" /\ out[pos].v \in StrSplitS) \/ (out[pos].k = "decl" /\ out[pos].v \in StrSplitDecl)))
        /\ (place \in {2, 3} => pos <= N)
        /\ ~InJoin(pos) /\ ~Shifting
-       /\ (place = 4 => ~HasEd("sent", pos) /\ ~HasEd("garb", pos) /\ ~HasEd("brk", pos))
+       /\ (place \in {4, 5} => ~HasEd("sent", pos) /\ ~HasEd("garb", pos) /\ ~HasEd("brk", pos))
        /\ (place = 3 => Splittable(pos))
        /\ (place = 2 => out[pos].k # "format")
        /\ (place \in {2, 3} => ~HasEd("sent", pos) /\ ~HasEd("garb", pos))
        \* at most one comment found inside a statement (trailing or in-continuation)
-       /\ (place \in {2, 3, 4} => ~\E j \in 1..Len(ed) : ed[j].t = "cmt" /\ ed[j].pos = pos /\ ed[j].a \in {2, 3, 4})
+       /\ (place \in {2, 3, 4, 5} => ~\E j \in 1..Len(ed) : ed[j].t = "cmt" /\ ed[j].pos = pos /\ ed[j].a \in {2, 3, 4, 5})
        /\ ed' = Append(ed, E("cmt", pos, place, c))
 
 AddCpp ==
@@ -82,7 +83,7 @@ AddCpp ==
 AddGarb ==
   /\ "garb" \in PKinds /\ ~\E j \in 1..Len(ed) : ed[j].t = "garb"
   /\ \E pos \in Ch(1..N), g \in 1..NGarb, extra \in 0..2 :
-       /\ ~\E j \in 1..Len(ed) : ed[j].t = "cmt" /\ ed[j].pos = pos /\ ed[j].a \in {2, 3, 4}
+       /\ ~\E j \in 1..Len(ed) : ed[j].t = "cmt" /\ ed[j].pos = pos /\ ed[j].a \in {2, 3, 4, 5}
        /\ ed' = Append(ed, E("garb", pos, g, extra))
 
 AddInc ==
@@ -103,16 +104,18 @@ AddSent ==
   \* sentinel with the statement text / with an ampersand
   /\ \E pos \in Ch({i \in 1..N : IsHideable(i)}), c \in 0..5 :
        /\ IsHideable(pos) /\ ~HasEd("sent", pos)
-       /\ ~\E j \in 1..Len(ed) : ed[j].t = "cmt" /\ ed[j].pos = pos /\ ed[j].a \in {2, 3, 4}
+       /\ ~\E j \in 1..Len(ed) : ed[j].t = "cmt" /\ ed[j].pos = pos /\ ed[j].a \in {2, 3, 4, 5}
        /\ (c >= 1 => Splittable(pos))
        /\ ed' = Append(ed, E("sent", pos, c, 0))
 
-\* free-form layout edits (C04): "brk" continuation of statement pos (a = where, b = variant:
+\* free-form layout edits (C04): "brk" continuation of statement pos (a = where, in eighths of its tokens, b = variant:
 \* 0 plain &, 1 leading &, 2 comment after &, 3 blank line between, 4 comment line between, 5 both);
 \* "join" statement pos and pos+1 on one line with `;`; "case" change of letter case (a = style)
+\* with RichOnly the edit goes to the statement that carries the non-default catalogue variant
+RichPos(S) == IF RichOnly /\ (\E i \in S : out[i].v > 1) THEN {i \in S : out[i].v > 1} ELSE S
 AddLayout ==
   \/ /\ "brk" \in PKinds
-     /\ \E pos \in Ch({i \in 1..N : Splittable(i)}), a \in {1, 2, 3}, b \in 0..5 :
+     /\ \E pos \in Ch(RichPos({i \in 1..N : Splittable(i)})), a \in 1..7, b \in 0..5 :
           /\ ~InJoin(pos) /\ ~HasEd("brk", pos)
           /\ ~\E j \in 1..Len(ed) : ed[j].pos = pos /\ ed[j].t = "cmt" /\ ed[j].a \in {2, 3}
           /\ ed' = Append(ed, E("brk", pos, a, b))
@@ -153,7 +156,7 @@ AddStruct ==
              /\ ed' = Append(ed, E("ren", pos, a, 0))
      \* one parenthesis deleted (b = 1) or added (b = 2 opening, b = 3 closing) in statement pos, outside character context
      \/ /\ "par" \in PKinds
-        /\ \E pos \in Ch(1..N), a \in Ch(1..4), b \in {1, 2, 3} : ed' = Append(ed, E("par", pos, a, b))
+        /\ \E pos \in Ch(1..N), a \in Ch(1..8), b \in {1, 2, 3} : ed' = Append(ed, E("par", pos, a, b))
 
 PStep == /\ done /\ ~pd /\ Len(ed) < MaxEdits
          /\ (AddCmt \/ AddCpp \/ AddGarb \/ AddInc \/ AddSent \/ AddStruct \/ AddLayout \/ AddMut)
@@ -197,13 +200,14 @@ EdsAt(pos, places) == SelectSeq([j \in 1..Len(ed) |-> j],
 RECURSIVE Leaves(_)
 Leaves(i) == IF i > N THEN [j \in 1..Len(EdsAt(N + 1, {1})) |-> <<"e", EdsAt(N + 1, {1})[j]>>]
              ELSE [j \in 1..Len(EdsAt(i, {1})) |-> <<"e", EdsAt(i, {1})[j]>>] \o << <<"s", i>> >>
-                  \o [j \in 1..Len(EdsAt(i, {2, 3, 4})) |-> <<"e", EdsAt(i, {2, 3, 4})[j]>>] \o Leaves(i + 1)
+                  \o [j \in 1..Len(EdsAt(i, {2, 3, 4, 5})) |-> <<"e", EdsAt(i, {2, 3, 4, 5})[j]>>] \o Leaves(i + 1)
 
 \* physical lines: every statement one line, plus one for a continuation break, plus inserted lines
 CppLines(f) == IF f \in {12, 13} THEN 2 ELSE 1          \* backslash-continued forms occupy two lines
 PreLines(i) == LET js == {j \in 1..Len(ed) : ed[j].pos = i /\ ((ed[j].t = "cmt" /\ ed[j].a = 1) \/ ed[j].t = "cpp")} IN
                Cardinality(js) + Cardinality({j \in js : ed[j].t = "cpp" /\ CppLines(ed[j].a) = 2})
 StmtLines(i) == IF \E j \in 1..Len(ed) : ed[j].t = "cmt" /\ ed[j].pos = i /\ ed[j].a \in {3, 4} THEN 3
+                ELSE IF \E j \in 1..Len(ed) : ed[j].t = "cmt" /\ ed[j].pos = i /\ ed[j].a = 5 THEN 2
                 ELSE IF \E j \in 1..Len(ed) : ed[j].t = "brk" /\ ed[j].pos = i
                      THEN (IF \E j \in 1..Len(ed) : ed[j].t = "brk" /\ ed[j].pos = i /\ ed[j].b \in {3, 4, 5} THEN 3 ELSE 2)
                 ELSE IF \E j \in 1..Len(ed) : ed[j].t = "garb" /\ ed[j].pos = i THEN 1 + (CHOOSE b \in 0..2 : \E j \in 1..Len(ed) : ed[j].t = "garb" /\ ed[j].pos = i /\ ed[j].b = b)
